@@ -1,6 +1,7 @@
 package rules
 
 import (
+	"go/token"
 	"go/types"
 	"strings"
 
@@ -195,7 +196,7 @@ func C04(c *Ctx) {
 				}
 				for _, f := range fs {
 					av := c.ReachAvoid(fn, map[*ssa.BasicBlock]bool{f.Instr.Block(): true})
-					d := av.At(a.Block())
+					d := dropStaleLoadContradictions(av.At(a.Block()), map[*ssa.BasicBlock]bool{f.Instr.Block(): true})
 					r.Check("C04-8", key+":afterfields", c.InstrPos(a), d.Implies(c.M(false, eqConst(isField(fldRule), `"name"`))), "no-match verdict reachable without running the field pass while Rule == name; reach avoiding the pass: "+d.Describe(c.O))
 				}
 			}
@@ -497,4 +498,157 @@ func (c *Ctx) caseSplitEquality(rule string, fn *ssa.Function, flagField string,
 		}
 	}
 	r.Check(rule, key+":both-branches", pos, n >= 2, "expected one return per case rule")
+}
+
+// dropStaleLoadContradictions removes the conjuncts that ask two loads of one local cell to be nil and non-nil although no
+// instruction that can write the cell (a store to it, any call – closures write captured cells) lies between the two loads on a
+// path that avoids the blocked blocks: `if a == nil { pass() }; if a != nil { return }` skips the pass only with a != nil, and
+// then returns.
+func dropStaleLoadContradictions(d core.DNF, blocked map[*ssa.BasicBlock]bool) core.DNF {
+	type ld struct {
+		u   *ssa.UnOp
+		nil bool // the literal says: loaded value == nil
+	}
+	nilLoad := func(l core.Lit) (ld, bool) {
+		v := l.V
+		neg := l.Neg
+		for {
+			if u, ok := v.(*ssa.UnOp); ok && u.Op == token.NOT {
+				v, neg = u.X, !neg
+				continue
+			}
+			break
+		}
+		b, ok := v.(*ssa.BinOp)
+		if !ok || (b.Op != token.EQL && b.Op != token.NEQ) {
+			return ld{}, false
+		}
+		for i := 0; i < 2; i++ {
+			x, y := b.X, b.Y
+			if i == 1 {
+				x, y = y, x
+			}
+			k, isK := y.(*ssa.Const)
+			u, isU := x.(*ssa.UnOp)
+			if !isK || !k.IsNil() || !isU || u.Op != token.MUL {
+				continue
+			}
+			if _, isAlloc := u.X.(*ssa.Alloc); !isAlloc {
+				continue
+			}
+			return ld{u: u, nil: (b.Op == token.EQL) != neg}, true
+		}
+		return ld{}, false
+	}
+	writes := func(in ssa.Instruction, cell ssa.Value) bool {
+		switch x := in.(type) {
+		case *ssa.Store:
+			return x.Addr == cell
+		case ssa.CallInstruction:
+			if bi, ok := x.Common().Value.(*ssa.Builtin); ok && (bi.Name() == "len" || bi.Name() == "cap") {
+				return false
+			}
+			return true
+		}
+		return false
+	}
+	// no write between `from` (exclusive) and `to` (exclusive) on any path avoiding the blocked blocks
+	clean := func(from, to *ssa.UnOp) bool {
+		cell := from.X
+		fb, tb := from.Block(), to.Block()
+		idx := func(b *ssa.BasicBlock, in ssa.Instruction) int {
+			for i, x := range b.Instrs {
+				if x == in {
+					return i
+				}
+			}
+			return -1
+		}
+		if fb == tb {
+			i, j := idx(fb, from), idx(tb, to)
+			if i > j {
+				return false
+			}
+			for _, in := range fb.Instrs[i+1 : j] {
+				if writes(in, cell) {
+					return false
+				}
+			}
+			return true
+		}
+		for _, in := range fb.Instrs[idx(fb, from)+1:] {
+			if writes(in, cell) {
+				return false
+			}
+		}
+		for _, in := range tb.Instrs[:idx(tb, to)] {
+			if writes(in, cell) {
+				return false
+			}
+		}
+		// blocks strictly between: reachable from fb and reaching tb, avoiding blocked blocks
+		fwd := map[*ssa.BasicBlock]bool{}
+		var f func(b *ssa.BasicBlock)
+		f = func(b *ssa.BasicBlock) {
+			for _, s := range b.Succs {
+				if !fwd[s] && !blocked[s] && s != tb && s != fb {
+					fwd[s] = true
+					f(s)
+				}
+			}
+		}
+		f(fb)
+		bwd := map[*ssa.BasicBlock]bool{}
+		var g func(b *ssa.BasicBlock)
+		g = func(b *ssa.BasicBlock) {
+			for _, p := range b.Preds {
+				if !bwd[p] && !blocked[p] && p != fb && p != tb {
+					bwd[p] = true
+					g(p)
+				}
+			}
+		}
+		g(tb)
+		reaches := false
+		for _, s := range fb.Succs {
+			if s == tb || (fwd[s] && bwd[s]) {
+				reaches = true
+			}
+		}
+		if !reaches {
+			return false
+		}
+		for b := range fwd {
+			if !bwd[b] {
+				continue
+			}
+			for _, in := range b.Instrs {
+				if writes(in, cell) {
+					return false
+				}
+			}
+		}
+		return true
+	}
+	var out core.DNF
+	for _, cj := range d {
+		var lds []ld
+		for _, l := range cj {
+			if x, ok := nilLoad(l); ok {
+				lds = append(lds, x)
+			}
+		}
+		contradiction := false
+		for i := range lds {
+			for j := range lds {
+				if i != j && lds[i].u.X == lds[j].u.X && lds[i].nil != lds[j].nil && lds[i].u != lds[j].u && clean(lds[i].u, lds[j].u) {
+					contradiction = true
+				}
+			}
+		}
+		if !contradiction {
+			out = append(out, cj)
+		}
+	}
+	return out
 }
